@@ -205,7 +205,7 @@ impl Entry {
                     l.len() == r.len()
                         && l.iter()
                             .zip(r.iter())
-                            .all(|(l, r)| equiv_data(&l.value, &r.value))
+                            .all(|(l, r)| l.padding == r.padding && equiv_data(&l.value, &r.value))
                 }
                 _ => false,
             }
@@ -215,7 +215,12 @@ impl Entry {
         // available (i.e. `Some(..)`) and they must be the same before we can merge the two
         // entries. Otherwise, `self.name` and `entry.name` will be `None` in which case we're also
         // allowed to merge the two entries (if their values are equivalent of course).
-        equiv_data(&self.value, &entry.value) && self.name == entry.name
+        //
+        // Equal values are not enough: the same values are laid out differently depending on
+        // their paddings (e.g., `u8`s packed in an array vs. word-padded in a struct).
+        equiv_data(&self.value, &entry.value)
+            && self.padding == entry.padding
+            && self.name == entry.name
     }
 }
 
